@@ -1,7 +1,7 @@
 # Table of registered checks; exec'd by mkmanifest.py. Add a reg(...) call when a check is
 # built, has been run to completion on the unchanged tree and has failed on at least one mutant.
 
-HOOK_COMMITS = []
+HOOK_COMMITS = ['b944277 verif hooks: RLBOX_VERIF_POINT / RLBOX_VERIF_SHARED (guarded by ALLENABY_RLBOX_VERIF)']
 
 ENGINES = [
     dict(name='driver', path='lib/vdriver.py', serves_properties=['C%02d' % i for i in range(1, 21)],
@@ -57,3 +57,8 @@ reg('C10', 'exploration', 'X (exhaustive input enumerator)', 'bounded exhaustive
     'Eleven bulk operations are executed over the product of start classes (null, first/last bytes, interior, application arena abutting guard pages, other sandbox, same sandbox), an extent lattice from 0 to 2^64-1 (incl. counts whose byte size wraps 2^64), six element types and six size-operand forms; each outcome is judged by an exact interval model (must-abort / must-proceed-on-exactly-these-bytes / null / unconstrained) and a byte diff of both sandboxes and the arena.',
     'Start addresses are classes; mbox has no grant/deny support so the copy branches are the ones exercised; allocations above 1 MiB are refused by the harness.',
     'DESIGN.md section 3, C10')
+
+reg('C09', 'model_checking', 'A (adversary interleaver over hooked read points)', 'exhaustive enumeration of adversary schedules (deviation-bounded) on the real code',
+    'The sandbox-as-adversary may rewrite its memory before any of RLBox\'s hooked reads of sandbox memory and when the verifier starts; every script of at most 2 (3) such events over 7 mutation kinds is executed for every copy_and_verify variant, element type and source placement (including objects ending on the last byte of the region). The verifier\'s object must lie outside every sandbox, hold only values the source held before the verifier started, survive a full overwrite of the region, and strings must be terminated within the range-checked length.',
+    'Adversary acts at read granularity (hook points in /repo, guard ALLENABY_RLBOX_VERIF); bulk reads are atomic; hardware memory ordering is not modelled.',
+    'DESIGN.md section 3, C09')
